@@ -90,6 +90,12 @@ static void run_op(uint64_t seed, long op, res_t *out)
     uint8_t in[160], in2[96], key[96], buf[256], buf2[256];
     size_t la = rnd(&r, 40), lb = rnd(&r, 70);
     fill_random(&r, in, sizeof in); fill_random(&r, in2, sizeof in2); fill_random(&r, key, sizeof key);
+    if (type < 6 && (op / NTYPES) % 2) {
+        /* every other AEAD/SIV operation uses a key whose first 16 bytes are common to its type: a cache keyed on a
+         * key prefix, or a "same key as last time" shortcut, then makes results depend on the order of calls */
+        rng_t rk = rng_for(seed, 0x6E1, (uint64_t)type);
+        fill_random(&rk, key, 16);
+    }
     res_init(out, (uint64_t)op);
     tl_inlib = 1;
     switch (type) {
